@@ -36,7 +36,7 @@ def to_bytes(syms):
 
 
 def to_syms(bs):
-    return tuple(INV[b] if b in INV else (chr(b) if b < 0x80 else "x%02X" % b) for b in bytes(bs))
+    return tuple(INV[b] if b in INV else (chr(b) if 0x20 <= b < 0x7f else "x%02X" % b) for b in bytes(bs))
 
 
 def text_syms(s):
